@@ -65,6 +65,11 @@ CHECKS = {
             TECH + "equivalence against a reference with an RFC 3629 classifier", "§3 C17"),
 }
 
+CHECKS["C19"] = ("model_checking",
+    "The real generation pipeline (front end, ast.Optimize, BuildParser) is executed twice on concrete catalogue grammars: once with every map ranged in insertion order and once with the iteration order of up to D dynamic range instances chosen nondeterministically; emitted bytes and acceptance must be equal on every explored order assignment.",
+    "Reduced claim: orders are engine nondeterminism under a delay bound (D=1 quick, D=2 thorough), the solver does not decide anything here; template expansion and goimports are outside. Finding F1 was fixed in /repo; a counterexample is confirmed by repeated native runs of the tool.",
+    "engine-level exploration of map iteration orders over the SSA of the real pipeline (delay-bounded); no SMT query decides this property", "§3 C19")
+
 NOT_BUILT = {
 }
 
@@ -73,7 +78,6 @@ NA = {
     "C04": "not built yet",
     "C13": "not built yet",
     "C18": "not built yet",
-    "C19": "not built yet",
     "C20": "not built yet",
 }
 
